@@ -18,15 +18,21 @@ META = {
     "level": "proof",
     "technique": "contract-based: naming postcondition on every rule that takes a name: the identifier emitted for name n is "
                  "exactly hy.mangle(n) (never n itself, never another function of n), checked by running the real rules on "
-                 "opaque sub-forms for a vocabulary of sentinel names covering every mangling case; run-time contracts on "
-                 "Keyword.__call__, install_macro, macroexpand lookup and local_macro_name",
+                 "opaque sub-forms for a vocabulary of sentinel names covering every mangling case; binding identity: every "
+                 "(binder, definer, reference) spelling triple of one identifier compiles to the program of the identifier itself "
+                 "and every name the rules hand to hy.scoping is a fixed point of hy.mangle (callee precondition of the scope "
+                 "interface, observed on the real classes); run-time contracts on Keyword.__call__, install_macro, macroexpand "
+                 "lookup and local_macro_name",
     "text": "For each naming construct (variable, assignment target, def/class name, every parameter kind, keyword argument, "
             "dotted and (. ...) attribute, method call, import name/alias/module path, global/nonlocal, except variable, "
             "match captures, let binding, type parameter, macro definition and macro call, (:kw obj) lookup) and each "
             "sentinel name class (plain, hyphenated, punctuation, leading hyphen/underscore, non-ASCII, NFKC-changing, "
             "already mangled, Python keyword) the emitted identifier equals hy.mangle(name) and the raw name never occurs. "
-            "Equality of bindings then coincides with equality of manglings. Other sub-forms are opaque, so the result "
-            "holds for all programs around the name.",
+            "Equality of bindings then coincides with equality of manglings: for 40 scope templates (let / fn / class / "
+            "import / nonlocal / global / comprehension / except / match / type parameter binders and definers around a "
+            "reference) and all spellings of one identifier in the three positions, the emitted program equals that of the "
+            "mangled spelling, a definer with another mangling leaves the reference alone, and hy.scoping never receives an "
+            "unmangled name. Other sub-forms are opaque, so the result holds for all programs around the name.",
     "note": "Trusted: hy.mangle itself (its own postconditions are C32); sentinel vocabulary stands for the classes mangle "
             "distinguishes (computed against the live mangle: each class must actually change / not change the name as "
             "declared, else the run is void); parametricity.",
@@ -130,6 +136,176 @@ def check_construct(label, builder, in_fn, cls, name):
     return (not problems), "; ".join(problems) + ("\n" + sx.show(out.result) if problems else "")
 
 
+# ---- second sentence: "two names refer to the same binding exactly when their manglings are equal" -----------------------------------
+# Contract on the scope bookkeeping (hy/scoping.py is keyed by identifiers): (a) precondition of the scope interface - every name a rule
+# hands to define / add / access / assign / define_nonlocal is a fixed point of hy.mangle; (b) binding identity - in a program whose
+# binder, definer and reference spell one identifier differently, replacing every spelling by its mangling leaves the emitted program
+# unchanged, and a definer of a differently-mangled name leaves the reference alone.
+
+SPELLINGS = {
+    "hyphen": ["u-x-y", "u_x-y"],
+    "punct": ["u-bang!", "u_bang!"],
+    "qmark": ["is-u?"],
+    "lead-hyphen": ["-u-lead"],
+    "lead-underscore": ["_u-priv"],
+    "non-ascii": ["u\u2115at"],
+    "nfkc": ["\uff55full", "u\uff46ull"],
+    "symbolic": ["u*star"],
+}
+
+
+def templates():
+    t = lambda i=0: Tok(f"t{i}", "E")
+    let = lambda a, *body: E(S("let"), List([N(a), t(0)]), *body)
+    T = []
+    add = lambda label, b: T.append((label, b))
+    add("let > defn > reference", lambda a, b, c: let(a, E(S("defn"), N(b), List([]), t(1)), N(c)))
+    add("let > fn > defn > reference", lambda a, b, c: let(a, E(S("fn"), List([]), E(S("defn"), N(b), List([]), t(1)), N(c))))
+    add("let > defn with decorator > reference", lambda a, b, c: let(a, E(S("defn"), List([t(2)]), N(b), List([]), t(1)), N(c)))
+    add("let > defclass > reference", lambda a, b, c: let(a, E(S("defclass"), N(b), List([])), N(c)))
+    add("let > fn > defclass > reference", lambda a, b, c: let(a, E(S("fn"), List([]), E(S("defclass"), N(b), List([])), N(c))))
+    add("let > import name alias > reference", lambda a, b, c: let(a, E(S("import"), S("umod"), List([S("ux"), Keyword("as"), N(b)])), N(c)))
+    add("let > import name > reference", lambda a, b, c: let(a, E(S("import"), S("umod"), List([N(b)])), N(c)))
+    add("let > import module alias > reference", lambda a, b, c: let(a, E(S("import"), S("umod"), Keyword("as"), N(b)), N(c)))
+    add("let > import module > reference", lambda a, b, c: let(a, E(S("import"), N(b)), N(c)))
+    add("let > fn > import name > reference", lambda a, b, c: let(a, E(S("fn"), List([]), E(S("import"), S("umod"), List([N(b)])), N(c))))
+    add("let > setv > reference", lambda a, b, c: let(a, E(S("setv"), N(b), t(1)), N(c)))
+    add("let > setx > reference", lambda a, b, c: let(a, E(S("setx"), N(b), t(1)), N(c)))
+    add("let > augmented assignment > reference", lambda a, b, c: let(a, E(S("+="), N(b), t(1)), N(c)))
+    add("let > del > reference", lambda a, b, c: let(a, E(S("del"), N(b)), N(c)))
+    add("let > fn > setv > reference", lambda a, b, c: let(a, E(S("fn"), List([]), E(S("setv"), N(b), t(1)), N(c))))
+    add("let > fn parameter > reference", lambda a, b, c: let(a, E(S("fn"), List([N(b)]), N(c))))
+    add("let > fn default parameter > reference", lambda a, b, c: let(a, E(S("fn"), List([List([N(b), t(1)])]), N(c))))
+    add("let > fn *args parameter > reference", lambda a, b, c: let(a, E(S("fn"), List([E(S("unpack-iterable"), N(b))]), N(c))))
+    add("let > fn keyword-only parameter > reference", lambda a, b, c: let(a, E(S("fn"), List([S("*"), N(b)]), N(c))))
+    add("let > fn **kwargs parameter > reference", lambda a, b, c: let(a, E(S("fn"), List([E(S("unpack-mapping"), N(b))]), N(c))))
+    add("let > fn > nonlocal > setv", lambda a, b, c: let(a, E(S("fn"), List([]), E(S("nonlocal"), N(b)), E(S("setv"), N(c), t(1)))))
+    add("let > fn > global > setv", lambda a, b, c: let(a, E(S("fn"), List([]), E(S("global"), N(b)), E(S("setv"), N(c), t(1)))))
+    add("fn > setv > fn > nonlocal > setv", lambda a, b, c: E(S("fn"), List([]), E(S("setv"), N(a), t(0)),
+                                                             E(S("fn"), List([]), E(S("nonlocal"), N(b)), E(S("setv"), N(c), t(1)))))
+    add("fn > reference > global (use before declaration)", lambda a, b, c: E(S("fn"), List([]), N(a), E(S("global"), N(b)), N(c)))
+    add("let > lfor target > reference", lambda a, b, c: let(a, E(S("lfor"), N(b), t(1), N(c)), N(c)))
+    add("let > lfor :setv > reference", lambda a, b, c: let(a, E(S("lfor"), S("ui"), t(1), Keyword("setv"), N(b), t(2), N(c)), N(c)))
+    add("let > for target > reference", lambda a, b, c: let(a, E(S("for"), List([N(b), t(1)]), N(c)), N(c)))
+    add("let > with target > reference", lambda a, b, c: let(a, E(S("with"), List([N(b), t(1)]), N(c)), N(c)))
+    add("let > except variable > reference", lambda a, b, c: let(a, E(S("try"), t(1), E(S("except"), List([N(b), t(2)]), N(c))), N(c)))
+    add("let > match capture > reference", lambda a, b, c: let(a, E(S("match"), t(1), N(b), N(c)), N(c)))
+    add("let > match :as capture > reference", lambda a, b, c: let(a, E(S("match"), t(1), Integer(1), Keyword("as"), N(b), N(c)), N(c)))
+    add("let > let > reference", lambda a, b, c: let(a, E(S("let"), List([N(b), t(1)]), N(c)), N(c)))
+    add("let > let destructuring > reference", lambda a, b, c: let(a, E(S("let"), List([List([N(b), S("uo")]), t(1)]), N(c)), N(c)))
+    add("let > type parameter > reference", lambda a, b, c: let(a, E(S("defn"), Keyword("tp"), List([N(b)]), S("ufn"), List([]), N(c))))
+    add("let > deftype > reference", lambda a, b, c: let(a, E(S("deftype"), N(b), t(1)), N(c)))
+    add("let > unpacking target > reference", lambda a, b, c: let(a, E(S("setv"), List([N(b), S("uo")]), t(1)), N(c)))
+    add("let > annotated assignment > reference", lambda a, b, c: let(a, E(S("setv"), E(S("annotate"), N(b), t(2)), t(1)), N(c)))
+    add("let > dotted head > reference", lambda a, b, c: let(a, E(S("."), N(b), S("ua")), N(c)))
+    add("fn parameter > let > reference", lambda a, b, c: E(S("fn"), List([N(a)]), E(S("let"), List([N(b), t(0)]), N(c)), N(c)))
+    add("defn > reference to itself", lambda a, b, c: E(S("defn"), N(a), List([N(b)]), N(c)))
+    return T
+
+
+def _emit(form):
+    out = sx.run_rule(structural.position(form, 6))
+    if not out.ok:
+        return ("error", type(out.exc).__name__ if sx.is_hy_user_error(out.exc) else "INTERNAL " + repr(out.exc)[:200])
+    return ("ok", sx.show(out.result))
+
+
+class _ScopeSpy:
+    """Records every name the rules hand to the scope interface (callee precondition: names are identifiers, i.e. fixed points of mangle)."""
+    METHODS = ("define", "add", "access", "assign", "define_nonlocal")
+
+    def __init__(self):
+        import hy.scoping as hsc
+        self.hsc, self.seen, self.saved = hsc, [], []
+
+    def _names(self, meth, args):
+        for a in args:
+            if isinstance(a, str):
+                yield str(a)
+            elif isinstance(a, (ast.Name, ast.arg, ast.alias, ast.MatchAs, ast.MatchStar, ast.MatchMapping)):
+                for f in ("id", "arg", "name", "asname", "rest"):
+                    v = getattr(a, f, None)
+                    if isinstance(v, str):
+                        yield v
+            elif isinstance(a, (ast.Global, ast.Nonlocal)):
+                yield from a.names
+            elif isinstance(a, self.hsc.NodeRef):
+                if isinstance(a.name, str):
+                    yield a.name
+
+    def __enter__(self):
+        spy = self
+        for cname in ("ScopeGlobal", "ScopeLet", "ScopeFn", "ScopeGen"):
+            cls = getattr(self.hsc, cname)
+            for m in self.METHODS:
+                f = cls.__dict__.get(m)
+                if f is None:
+                    continue
+                def wrap(f=f, m=m, cname=cname):
+                    def w(self_, *a, **k):
+                        if not (m == "add" and a and not isinstance(a[0], str)):
+                            for nm in spy._names(m, a):
+                                spy.seen.append((f"{cname}.{m}", nm))
+                        r = f(self_, *a, **k)
+                        if m == "add" and cname == "ScopeLet":
+                            for key in self_.bindings:
+                                spy.seen.append(("ScopeLet.bindings key", key))
+                        return r
+                    return w
+                self.saved.append((cls, m, f))
+                setattr(cls, m, wrap())
+        return self
+
+    def __exit__(self, *a):
+        for cls, m, f in self.saved:
+            setattr(cls, m, f)
+
+
+def binding_identity(chk):
+    import itertools
+    T = templates()
+    n_forms = 0
+    for label, b in T:
+        for cls, sp in SPELLINGS.items():
+            m = mangle(sp[0])
+            assert all(mangle(x) == m for x in sp), (cls, sp)
+            opts = [*sp, m]
+            ref = _emit(b(m, m, m))
+            bad = []
+            scope_bad = []
+            for trip in itertools.product(opts, repeat=3):
+                if trip == (m, m, m):
+                    continue
+                with _ScopeSpy() as spy:
+                    got = _emit(b(*trip))
+                n_forms += 1
+                if got != ref and not bad:
+                    bad.append((trip, got, ref))
+                for where, nm in spy.seen:
+                    if where == "ScopeLet.add":
+                        continue        # add() takes the Hy spelling and mangles it itself; its postcondition is the bindings key
+                    if mangle(nm) != nm or unicodedata.normalize("NFKC", nm) != nm:
+                        if not scope_bad:
+                            scope_bad.append((trip, where, nm))
+            chk.case((label, cls))
+            chk.ob(f"binding/{label}/{cls}: every spelling of one identifier compiles like the identifier itself", not bad, "structural",
+                   "exhaustive_finite", detail=None if not bad else
+                   f"names (binder, definer, reference) = {bad[0][0]}\nemitted: {bad[0][1][1]}\nwith every name written as {m!r}: {bad[0][2][1]}",
+                   witness=None if not bad else {"names": list(bad[0][0]), "template": label})
+            chk.ob(f"scope-interface/{label}/{cls}: every name handed to the scope bookkeeping is a fixed point of hy.mangle", not scope_bad,
+                   "structural", "exhaustive_finite", detail=None if not scope_bad else
+                   f"names = {scope_bad[0][0]}: {scope_bad[0][1]} received {scope_bad[0][2]!r}",
+                   witness=None if not scope_bad else {"names": list(scope_bad[0][0]), "template": label})
+            # converse: a definer whose mangling differs does not touch the binding
+            other = "u_other"
+            with_other = _emit(b(m, other, m))
+            plain = _emit(b(m, "u_third", m))
+            same = with_other[0] == plain[0] and with_other[1].replace(other, "u_third") == plain[1]
+            chk.ob(f"binding/{label}/{cls}: a definer with a different mangling is a different binding", same, "structural",
+                   "exhaustive_finite", detail=None if same else f"{with_other}\nvs\n{plain}")
+    chk.extra["binding_identity_forms"] = n_forms
+
+
 def runtime_contracts(chk):
     # (:name obj) looks up mangle(name)
     for cls, name in NAMES.items():
@@ -186,6 +362,7 @@ def run(chk):
             else:
                 chk.ob(f"name/{label}/{cls}", okk, "structural", "proved", detail=detail)
     runtime_contracts(chk)
+    binding_identity(chk)
     chk.fn("hy/compiler.py::compile_symbol, compile_expression, _compile_collect", "hy/core/result_macros.py::compile_attribute_access, "
            "compile_arguments_set, compile_function_def, compile_class_expression, compile_import, compile_global_or_nonlocal, "
            "compile_pattern, compile_try_expression, compile_let, compile_deftype, digest_type_params",
